@@ -58,6 +58,10 @@ CLAIMS["C08"] = ("must-pass comparison / call guards on borrow booking and lend 
     "Static decision of the structural part: the lend ratio check succeeds only through ratio <= threshold; every function booking a new or larger borrow needs a successful check against the asset's (E)Ltv and the comparison loan <= pool balance; lend withdrawals are bounded by AvailableToBorrow and a lend closes only when its open-borrow id list is nil; each change of the published totals is matched, in the same function, by a pool custody movement or the position-record change of the same amount; id-list removals keep the remaining ids; no borrow/lend copy read before interest accrual is used afterwards. NOT covered: the totals identity as numbers, interest accrual arithmetic, cross-pool bridged-asset accounting.",
     "DESIGN.md §3 C08")
 
+CLAIMS["C11"] = ("one-sided comparison guards with operand provenance, effect co-occurrence for refunds, recipient/amount provenance at close, custody release rule, books twins and store-key agreement for limit bids",
+    "Static decision for the three English-auction implementations and the limit-bid API: a bid is taken only behind a one-sided comparison with a value derived from the stored standing bid in the direction of the auction type; the outbid bidder is refunded (recipient and coins both from the stored record) on every success path with a previous bid; at close, coins go to the stored bidder and are the stored bid or lot; message-named amounts/denominations leave custody only behind requested <= recorded and denom equality; the limit-bid record and the protocol total change by the custody amount and the record is read under the key it is stored under. NOT covered: that custody equals the standing bid as a number, auction timing, totals over bid sequences.",
+    "DESIGN.md §3 C11")
+
 NOT_APPLICABLE = {
     "C18": "purely numeric relations between evaluations of accrual/rate functions (non-negativity, monotonicity, sub-additivity, continuity; one path through float64 math.Pow); no guard, pairing, provenance or ordering is a necessary condition of them, so no sound static argument in reach applies (DESIGN.md §3 C18, §4).",
 }
